@@ -15,7 +15,7 @@ from mc.core import Part
 MOD = "mc.props.c19"
 BOUNDARY = sorted({s * v for s in (1, -1) for p in (7, 8, 15, 16, 31, 32, 63) for v in (2**p - 1, 2**p, 2**p + 1)} | {0, 1, -1, 5, -5, 100, -100})
 CAPACITY = {"tinyint": (0, 255), "smallint": (-(2**15), 2**15 - 1), "int": (-(2**31), 2**31 - 1), "integer": (-(2**31), 2**31 - 1), "bigint": (-(2**63), 2**63 - 1)}
-NAMES = ["id", "name", "select", "table", "date", "a_1", "user", "level", "number", "zone"]
+NAMES = ["id", "name", "Select", "table", "date", "a_1", "User", "level", "NUMBER", "zone"]  # keywords are recognised whatever their case
 LINE = re.compile(r'(?P<name>"?\w+"?) (?P<type>\w+)(?:\((?P<p>\d+)(?:, (?P<s>\d+))?\))?(?P<notnull> not null)?(?P<default> default .*)?')
 
 
